@@ -181,7 +181,7 @@ func connConfiguration(p *Prog, r *Report, R string) {
 // every dial after that moment fail at once; a Control hook or LocalAddr pins the socket).
 var stdConfigAllowed = map[string]bool{
 	"net.Dialer.KeepAlive": true, "net.Dialer.Timeout": true,
-	"net.ListenConfig.KeepAlive": true,
+	"net.ListenConfig.KeepAlive":    true,
 	"websocket.Dialer.Subprotocols": true, "websocket.Dialer.TLSClientConfig": true,
 	"websocket.Upgrader.Subprotocols": true, "websocket.Upgrader.CheckOrigin": true,
 	"http.Server.Addr": true, "http.Server.Handler": true,
